@@ -8,7 +8,7 @@ INFO = dict(
             'fiber_bounded_channel_receive', 'fiber_unbounded_channel_send', 'fiber_unbounded_channel_receive',
             'fiber_unbounded_sp_channel_send', 'fiber_unbounded_sp_channel_receive', 'fiber_multi_channel_send', 'fiber_multi_channel_receive',
             'mpsc_fifo_push', 'mpsc_fifo_trypop', 'spsc_fifo_push', 'spsc_fifo_trypop', 'fiber_manager_do_maintenance'],
- stubs=['contract kernel (see C03)'],
+ stubs=['contract kernel (see C03)', 'multi channel: fiber_mutex replaced by its C03 contract (abstract mutex)'],
  assumptions=['assume-guarantee: the runtime contract of C01/C02 holds for yield/schedule', 'x86-TSO mapping of atomics; -O1 IR of clang-14'],
  bounds='signal: 1 waiter x 1-2 waits, 1-2 raisers; channels: capacity 2, 1-2 senders x 1-2 messages, 1 receiver; spin bound 1; all interleavings (SC), spsc channel also TSO',
  outside='more messages/senders; capacities > 2')
@@ -20,12 +20,17 @@ def plan(tier, ctx):
     j += fvm.config('C11', 'signal_1w1r', 'signal.c', 2, 4, 'sc', srcs=src, defines=['NRAISE=1', 'NWAITS=1'], spec=fvm.kspec(2), bounds='1 wait, 1 raise', timeout=900)
     j += fvm.config('C11', 'signal_1w2r', 'signal.c', 3, 4, 'sc', srcs=src, defines=['NRAISE=2', 'NWAITS=1'], spec=fvm.kspec(3), bounds='1 wait, 2 raisers', timeout=1200)
     j += fvm.config('C11', 'chan_unbounded_1x1', 'chan.c', 2, 4, 'sc', srcs=src, defines=['KIND=2', 'NSEND=1', 'NMSG=1'], spec=fvm.kspec(2), bounds='unbounded channel, 1 sender x 1', timeout=1500)
-    j += fvm.config('C11', 'chan_unbounded_1x2', 'chan.c', 2, 5, 'sc', srcs=src, defines=['KIND=2', 'NSEND=1', 'NMSG=2'], spec=fvm.kspec(2), bounds='unbounded channel, 1 sender x 2', timeout=2400, required=False)
-    j += fvm.config('C11', 'chan_sp_1x2', 'chan.c', 2, 5, 'sc', srcs=src, defines=['KIND=3', 'NSEND=1', 'NMSG=2'], spec=fvm.kspec(2), bounds='single-producer channel, 2 messages', timeout=2400, required=False)
-    j += fvm.config('C11', 'chan_bounded_1x2', 'chan.c', 2, 5, 'sc', srcs=src, defines=['KIND=1', 'NSEND=1', 'NMSG=2'], spec=fvm.kspec(2), bounds='bounded channel cap 2, 1 sender x 2', timeout=2400, required=False)
     if tier == 'thorough':
+        j += fvm.config('C11', 'mchan_1s1r_3', 'mchan.c', 2, 5, 'sc', srcs=src, defines=['NSEND=1', 'NRECV=1', 'NMSG=3'], spec=fvm.kspec_amutex(2),
+                        bounds='multi channel cap 2 (abstract mutex), 1 sender x 3, 1 receiver (the sender must block on the full channel)', timeout=1800, required=False)
+        j += fvm.config('C11', 'chan_bounded_1x2', 'chan.c', 2, 5, 'sc', srcs=src, defines=['KIND=1', 'NSEND=1', 'NMSG=2'], spec=fvm.kspec(2), bounds='bounded channel cap 2, 1 sender x 2', timeout=2400, required=False)
+        j += fvm.config('C11', 'chan_sp_1x2', 'chan.c', 2, 5, 'sc', srcs=src, defines=['KIND=3', 'NSEND=1', 'NMSG=2'], spec=fvm.kspec(2), bounds='single-producer channel, 2 messages', timeout=2400, required=False)
+        j += fvm.config('C11', 'chan_unbounded_1x2', 'chan.c', 2, 5, 'sc', srcs=src, defines=['KIND=2', 'NSEND=1', 'NMSG=2'], spec=fvm.kspec(2), bounds='unbounded channel, 1 sender x 2', timeout=2400, required=False)
         j += fvm.config('C11', 'signal_2w2r', 'signal.c', 3, 5, 'sc', srcs=src, defines=['NRAISE=2', 'NWAITS=2'], spec=fvm.kspec(3), bounds='2 waits, 2 raisers', timeout=3000, required=False)
         j += fvm.config('C11', 'chan_unbounded_2x1', 'chan.c', 3, 5, 'sc', srcs=src, defines=['KIND=2', 'NSEND=2', 'NMSG=1'], spec=fvm.kspec(3), bounds='unbounded channel, 2 senders x 1', timeout=3000, required=False)
         j += fvm.config('C11', 'chan_bounded_2x1', 'chan.c', 3, 5, 'sc', srcs=src, defines=['KIND=1', 'NSEND=2', 'NMSG=1'], spec=fvm.kspec(3), bounds='bounded channel cap 2, 2 senders x 1', timeout=3000, required=False)
         j += fvm.config('C11', 'chan_sp_1x2', 'chan.c', 2, 5, 'tso', srcs=src, defines=['KIND=3', 'NSEND=1', 'NMSG=2'], spec=fvm.kspec(2), bounds='single-producer channel, TSO', timeout=3000, required=False)
+    if tier == 'thorough':
+        j += fvm.config('C11', 'mchan_2s1r', 'mchan.c', 3, 5, 'sc', srcs=src, defines=['NSEND=2', 'NRECV=1', 'NMSG=2'], spec=fvm.kspec_amutex(3),
+                        bounds='multi channel cap 2, 2 senders x 2, 1 receiver', timeout=3600, required=False, mem_gb=24)
     return j
